@@ -196,7 +196,7 @@ CHECKS['C14'] = dict(
     steps=[dict(mode='asan', bin='c14_lz4'), dict(mode='asan', bin='c14_pair'),
            dict(name='transparency', py=stream_simple('transparency', 'lz4enum.py', 'c14_transparency'), targets=[('asan', 'c14_transparency')])],
     rule='decoder component on exact-size guard-page input and output buffers vs a byte-at-a-time reference LZ4 block decoder: (a) ALL blocks of <=2 sequences + final literals over literal lengths {0,1,7,8,14,15,16,270} x match lengths {4,5,18,19,20,274} x offsets {1,2,3,7,8,9,produced,produced+1,0} '
-         'x announced size {exact,-1,+1,+8}, and all 3-sequence blocks over reduced sets; (b) every truncation of valid seed blocks; (c) every single-byte deviation (all 255 values; thorough: x all token bytes) of valid seed blocks <=48 bytes; (d) ALL byte strings of length 13 (thorough 14) over {00,10,1F,F0}. '
+         'x announced size {exact,-1,+1,+8}, and all 3-sequence blocks over reduced sets; (long_runs) literal-only blocks of every length 0..800, and one- and two-sequence blocks with literal / match lengths around one, two and three 255-extension bytes x offsets {1,2,7,8,16,produced} (overlapping copies, a second sequence with zero literals); (b) every truncation of valid seed blocks; (c) every single-byte deviation (all 255 values; thorough: x all token bytes) of valid seed blocks <=48 bytes; (d) ALL byte strings of length 13 (thorough 14) over {00,10,1F,F0}. '
          'Oracle: no fault, return in {-1} u [0,size]; size returned == announced size only if the reference decodes to exactly those bytes; valid shrinking encodings obeying the end-of-block rules must be accepted. '
          '(table_wrapper) the [version][scheme:5|announced size:27] header of the compressed Silf and Glat tables of the three compressed S-full variants (thorough + Awami compressed): ALL 32 scheme values x 32 boundary sizes (0..5, 7..9, 12, 13, 16, compressed length +-1/-8/-9, true size +-1/+-4, half, double, powers of two, 27-bit maximum), loaded with options 0 and 7 under ASan: no fault, unmodified header loads and reports the uncompressed face, borrowed tables returned. '
          'Transparency: S-full with Silf / Glat / both compressed under EVERY encoding that differs from the greedy parse in 1 decision (thorough: 2 nearby decisions) out of {literal instead of match, shortest match, farthest offset, 19-byte match (length-extension byte)}: plus, for each table, the valid blocks that are exactly 1..12 bytes shorter than the data (last matches shortened or dropped): must load (options 0 and 7) and give the same face dump and the same segments for all strings <=2 (thorough <=3) over 9 characters x dir 0/1 as the uncompressed font; '
@@ -260,7 +260,7 @@ CHECKS['C06'] = dict(
     steps=[dict(name='gdl_lite', py=stream_simple('gdl_lite', 'gdl_lite.py', 'c06_stream'), targets=[('asan', 'c06_stream')])],
     rule='GDL-lite programs (gen/gdl_lite.py) compiled to Silf/Glat/Gloc/cmap tables by the synthesiser: (single) every rule with pre-context 0..2 (uniform class), body length 1..3 (total <= 4 quick / 5 thorough) over 3 (thorough 5) overlapping input classes, '
          'at most two body items carrying one action from {put_glyph x|z, delete, insert z, user0=3, advance=777, put_subs([a b]->[x y])}, optional constraint (glyph attribute == v, feature == 1; thorough: on every item); (pair) ordered pairs from a 64-rule core that overlaps on many strings '
-         '(precedence by sort key, by rule order, by constraint; mixed pre-context lengths in one pass); (twopass) substitution pass then positioning pass (shift, advance, user attribute, attachment of an inserted zero-advance mark); (attr_then_pair) a pass setting a user attribute / advance followed by a pass with two core rules (inserted slots must be fresh); (backup_chain) MaxRuleLoop M in 2..5 with k <= M-1 single-slot rules that substitute and resume at their own slot (no progress, the loop limit must not intervene), then a rule spanning 2-3 slots (resuming after it or inside it), then a rule that could match inside that output; (class_lookup) PUT_SUBS through lookup classes of every size 1..8 in two member orders, with and without pre-context, every member substituted alone and in a run; (direction) RTL fonts and reverse-direction passes. '
+         '(precedence by sort key, by rule order, by constraint; mixed pre-context lengths in one pass); (twopass) substitution pass then positioning pass (shift, advance, user attribute, attachment of an inserted zero-advance mark); (attr_then_pair) a pass setting a user attribute / advance followed by a pass with two core rules (inserted slots must be fresh); (backup_chain) MaxRuleLoop M in 2..5 with k <= M-1 single-slot rules that substitute and resume at their own slot (no progress, the loop limit must not intervene), then a rule spanning 2-3 slots (resuming after it or inside it), then a rule that could match inside that output; (class_lookup) PUT_SUBS through lookup classes of every size 1..8 in two member orders, with and without pre-context, every member substituted alone and in a run; (attr_ops / attr_read) ATTR_ADD / ATTR_SUB / IATTR_ADD on one item of a rule, constraints reading advance / shift of the item itself, of the pre-context item and of the following item, also after a first pass changed them; (direction) RTL fonts and reverse-direction passes. '
          'Every program x every string of length 1..3 (thorough 1..4) over {a,b,c,d} + strings with an unmapped character x dir {0,1} (x feature 0/1 when tested): the reference interpreter (written from doc/GTF.adoc and doc/OpCodes.adoc: longest sort key first then earliest rule, constraint true, in-place stream, cursor after the rule, advance reset on glyph change, '
          'pen accumulation with shift and attachment offsets) must equal the engine on glyph ids, parent indices, advance/shift/user/attach attributes and, for LTR unreversed programs, design-unit origins and the segment advance',
     state_meaning='states = (program, string, direction, feature) evaluations; every one is a reference trace validated against the implementation',
